@@ -93,6 +93,19 @@ class PertChecker(object):
                 where, t, fields, bad[:4]), t=t, bad=[list(map(str, b)) for b in bad[:8]])
 
 
+class MonPert(object):
+    """The values as they stand when the update of a step is over (observer phase 'updated'), whether or not
+    update_PERT_data was called in that update."""
+
+    def __init__(self, chk):
+        self.chk = chk
+
+    def on_phase(self, tr, project, phase, snap):
+        if phase == "updated":
+            self.chk.res.count("C12.updated_phase_checks")
+            self.chk.check(project.workflow, project.time, "at the end of the update of step %d" % project.time)
+
+
 _state = {"installed": False, "checker": None}
 
 
@@ -144,6 +157,12 @@ def make_case(prop, seed, i, tier):
     big = tier == "thorough"
     if i % 6 == 4:
         return dict(prop=prop, i=i, kind="sim", spec=gen_float_residue(rng), family="float-residue")
+    if i % 12 == 7:
+        # pause, edit the absence steps of the paused logs (the clock moves), resume
+        spec = G.gen_fs(rng, max_tasks=12 if big else 9)
+        spec["sim"]["absence"] = sorted(rng.sample(range(0, 10), rng.randint(1, 4)))
+        return dict(prop=prop, i=i, kind="pause-edit-resume", spec=spec, k=rng.choice([2, 3, 4, 5, 6, 8]),
+                    edit=rng.choice(["remove", "insert", "none"]), ins=sorted(rng.sample(range(0, 8), rng.randint(1, 2))))
     if i % 3 == 2:
         spec = G.gen_fs(rng, max_tasks=12 if big else 9)
         ops = []
@@ -198,10 +217,30 @@ def run_case(case):
                 res["aborted"] = e
         finally:
             _state["checker"] = None
+    elif case["kind"] == "pause-edit-resume":
+        from .history import Hist
+        I.set_order(I.default_order(spec))
+        tr = I.Tracer([MonPert(chk)])
+        _state["checker"] = chk
+        try:
+            h = Hist(spec, tracer=tr)
+            e = h.do(["pause", case["k"]])
+            if e is None and case["edit"] == "remove":
+                e = h.do(["remove_abs"])
+            elif e is None and case["edit"] == "insert":
+                e = h.do(["insert_abs", [x for x in case["ins"] if x <= h.p.time]])
+            if e is None:
+                res.count("C12.resumes_after_edit." + case["edit"])
+                e = h.do(["resume"])
+            if e is not None:
+                res["aborted"] = e
+        finally:
+            _state["checker"] = None
+        res.absorb(tr, props=("C12",))
     elif case["kind"] == "sim":
         _state["checker"] = chk
         try:
-            m, tr, err = forward(spec, lambda started: [])
+            m, tr, err = forward(spec, lambda started: [MonPert(chk)])
         finally:
             _state["checker"] = None
         res.absorb(tr, props=("C12",))
